@@ -1,5 +1,5 @@
 (* C17 - coordinator notifications are never lost. *)
-From Grevm Require Import Base.Util Wait.Model Wait.Proofs.
+From Grevm Require Import Base.Util Wait.Model Wait.Proofs Wait.Progress.
 
 (* one waiter, any number of producers, every interleaving of register / check / yield / check /
    park with unblock / notify, notifications before registration, between the checks, between the
@@ -38,5 +38,35 @@ Example C17_parked_then_woken :
             /\ wp s = WParked /\ token s = false /\ blocked s = false /\ pending_at (pp s 1) = true.
 Proof. eexists. split; [vm_compute; reflexivity|]. repeat split; reflexivity. Qed.
 
+(* progress half: in every reachable state in which the waiter is asleep in park and the predicate
+   is unblocked, the notifications still in flight wake it - a path of at most three events, made
+   only of the remaining steps of one pending notify() (read the slot, unpark) and the waiter's
+   resumption on the token; no timeout, no spurious wake-up, no further unblock, no new producer
+   round.  The waiter then evaluates the unblocked predicate and wait_while returns. *)
+Theorem C17_parked_waiter_is_woken_by_notifications_in_flight :
+  forall (b0 : bool) (tr : list wevent) (s : wstate),
+    wrun (winit b0) tr = Some s ->
+    wp s = WParked -> blocked s = false ->
+    exists tr' s', length tr' <= 3 /\ forallb completes_notify tr' = true /\
+                   wrun s tr' = Some s' /\ wp s' = WIdle /\ blocked s' = false /\
+                   exists s'', wstep s' (WCheck1 false) = Some s'' /\ wp s'' = WIdle.
+Proof.
+  intros b0 tr s H Hp Hb.
+  destruct (parked_unblocked_is_woken s (winv_run _ _ _ (winv_init b0) H) Hp Hb)
+    as (tr' & s' & Hl & Hc & Hr & Hw & Hb').
+  exists tr', s'. repeat split; auto. exact (idle_check_returns s' Hw Hb').
+Qed.
+
+(* non-vacuity of the progress theorem: the longest path (the producer has changed the predicate
+   and not yet read the slot) is really needed and really works *)
+Example C17_progress_path_of_three :
+  exists s s', wrun (winit true) [WRegister; WCheck1 true; WCheck2 true; WPark; PUnblock 1] = Some s
+            /\ wp s = WParked /\ token s = false /\ blocked s = false
+            /\ wstep s WWake = None
+            /\ wrun s [PNotifyRead 1 true; PUnpark 1; WWake] = Some s' /\ wp s' = WIdle.
+Proof. eexists. eexists. split; [vm_compute; reflexivity|]. repeat split; vm_compute; reflexivity. Qed.
+
+
 Print Assumptions C17_no_lost_wakeup.
 Print Assumptions C17_timeout_never_needed.
+Print Assumptions C17_parked_waiter_is_woken_by_notifications_in_flight.
